@@ -95,8 +95,8 @@ def check(rep):
     ER.rule_value_keyed_caches(ctx, rid="C05.NO-VALUE-KEYED-CACHE",
                                modules={"codegen/python/python_generator.py", "language/grammar.py", "language/lexer.py",
                                         "data_structures/syntax_tree.py", "utils/wraper_functions.py"})
-    PR.rule_coercions(ctx, skip_validators_on=("group_weight",))
-    PR.rule_renderers(ctx)
+    PR.rule_coercions(ctx, skip_validators_on=("group_weight",), skip_fields=("splitting_fields", "id"))
+    PR.rule_renderers(ctx, skip_tags=("w",))
     PR.rule_literal_terms(ctx)
     PR.rule_placement(ctx, rid="C05.PLACEMENT")
     rep.assume("NOT decided: decimal literals beyond double range (become inf), which no quantifier of the property reaches")
